@@ -140,7 +140,9 @@ class Stacker(Transformer):
         """Verify that the feature coordinates of the data are consistent with the feature coordinates used to fit the stacker."""
         feature_dims = self.dims_mapping[self.feature_name]
         coords_are_equal = [
-            X.coords[dim].equals(self.coords_in[dim]) for dim in feature_dims
+            # Compare the labels only, not the scalar coordinates or attributes attached to them
+            X.indexes[dim].equals(self.coords_in[dim].to_index())
+            for dim in feature_dims
         ]
         if not all(coords_are_equal):
             raise ValueError(
